@@ -69,7 +69,8 @@ class Handler(AbstractHandler):
     def accept(self, stream: Any, headers: Any, release_stream: Any) -> None:
         # servers can't open streams, refuse it instead of raising out of the
         # connection's input path, which would drop other calls' frames
-        stream.reset_nowait(ErrorCodes.REFUSED_STREAM)
+        if stream.closable:
+            stream.reset_nowait(ErrorCodes.REFUSED_STREAM)
         release_stream()
 
     def cancel(self, stream: Any) -> None:
